@@ -19,10 +19,12 @@ package child
 
 import (
 	"bufio"
+	"bytes"
 	"encoding/json"
 	"flag"
 	"fmt"
 	"os"
+	"runtime"
 	"strconv"
 	"strings"
 	"sync"
@@ -71,6 +73,13 @@ func EmitBatch(kind string, docs []interface{}) {
 		return
 	}
 	Emit(map[string]interface{}{"kind": kind, "docs": docs})
+}
+
+var stackBuf = make([]byte, 1<<20)
+
+func panicking() bool {
+	n := runtime.Stack(stackBuf, true)
+	return bytes.Contains(stackBuf[:n], []byte("runtime.gopanic")) || bytes.Contains(stackBuf[:n], []byte("\npanic("))
 }
 
 // Run parses the common flags from args and feeds scenarios to h.
@@ -134,6 +143,13 @@ func Run(args []string, h Handler) {
 		atomic.StoreInt64(&cur, int64(i))
 		atomic.AddInt64(&beat, 1)
 		r := h(i, line)
+		// A library goroutine that panics first runs its deferred close(channel), which
+		// lets the handler finish normally a moment before the runtime kills the process.
+		// If any goroutine is unwinding a panic, wait for the death here so that it is
+		// attributed to THIS scenario (the watchdog is the fallback).
+		if panicking() {
+			time.Sleep(*timeout + time.Second)
+		}
 		atomic.StoreInt64(&cur, -1)
 		outMu.Lock()
 		switch {
